@@ -92,6 +92,7 @@ func DepositValue(recipient string, amount, tip *big.Int) string {
 }
 
 type WorldOpts struct {
+	RegisterOnlyFirst bool // only v0 gets an EVM address at genesis (others register later, at any time)
 	Chain    ChainOpts
 	NumUsers int
 	Proj     []string
@@ -103,6 +104,7 @@ func NewWorld(seed int64, tr *Trace, hist int, o WorldOpts) (*World, error) {
 		o.Chain.ValTokens = []int64{4_000_000_000, 2_000_000_000, 1_000_000_000}
 	}
 	o.Chain.RegisterEVM = true
+	o.Chain.RegisterOnlyFirst = o.RegisterOnlyFirst
 	if o.NumUsers == 0 {
 		o.NumUsers = 6
 	}
@@ -684,4 +686,40 @@ func (w *World) backersOf(rep oracletypes.MicroReport) []string {
 		}
 	}
 	return out
+}
+
+// RegisterEVM stores an EVM address for a validator operator, as the pre-blocker does with the address
+// recovered from a validator's initial signatures (environment event; the signature path itself is C17).
+func (w *World) RegisterEVM(v *Val) PhaseResult {
+	evm := make([]byte, 20)
+	evm[0] = 0xE0
+	for i, x := range w.Vals {
+		if x == v {
+			evm[19] = byte(i + 1)
+		}
+	}
+	r := guard(func() error {
+		if ok, _ := w.App.BridgeKeeper.OperatorToEVMAddressMap.Has(w.Ctx, v.ValAddr.String()); ok {
+			return fmt.Errorf("already registered")
+		}
+		return w.App.BridgeKeeper.SetEVMAddressByOperator(w.Ctx, v.ValAddr.String(), evm)
+	})
+	w.emit("RegisterEVM", Rec{"val": v.Name}, r)
+	return r
+}
+
+// SignValset stores a validator's signature for the latest checkpoint, as the pre-blocker does with
+// the signature carried by that validator's vote extension.
+func (w *World) SignValset(v *Val) PhaseResult {
+	var ts uint64
+	r := guard(func() error {
+		t, err := w.App.BridgeKeeper.GetCurrentValidatorSetTimestamp(w.Ctx)
+		if err != nil {
+			return err
+		}
+		ts = t
+		return w.App.BridgeKeeper.SetBridgeValsetSignature(w.Ctx, v.ValAddr.String(), t, "aabbcc"+fmt.Sprintf("%02x", len(v.Name)))
+	})
+	w.emit("SignValset", Rec{"val": v.Name, "cpts": NumU64(ts)}, r)
+	return r
 }
